@@ -266,6 +266,18 @@ def run(ctx: Ctx):
     rng = ctx.rng
     one = np.float64(1.0)
     T = 10 if ctx.thorough else 1
+    # ------------------------------------------------------------------ what the calling program logs is inert (harness/logmode.py)
+    import logmode
+    for spec_l, tag_l in ((Simulation.PowerSpectrum(index=2.3, lower_bound=7.0, upper_bound=11.0), "power 2.3 [7,11]"),
+                          (Simulation.PowerSpectrum(index=1.0, lower_bound=6.0, upper_bound=12.0), "power 1 [6,12]"),
+                          (Simulation.MonoSpectrum(log_nu_energy=9.5), "mono 9.5")):
+        cfg_l = nss.NssConfig()
+        cfg_l.simulation.spectrum = spec_l
+
+        def call_l(cfg_l=cfg_l):
+            r = sm.Spectra(cfg_l)(257)
+            return tuple(np.asarray(x, dtype=np.float64) for x in r)
+        logmode.check(ctx, "Spectra.__call__", call_l, {"spectrum": tag_l, "events": 257})
     # ------------------------------------------------------------------ boundary stream
     idx = [0.0, 0.5, 1 - 1e-9, float(np.nextafter(one, 0)), 1.0, float(np.nextafter(one, 2)), 1 + 1e-9, 2.0, 2.5, 3.0, 4.0,
            1 - 9e-6, 1 - 2e-6, 1 + 2e-6, 1 + 5e-6, 1 + 3e-5, 1 - 1e-4]   # close to 1 but far from the cancellation region: NOT the index-1 spectrum
